@@ -331,7 +331,9 @@ def stmts(node):
         return out
     if cn == 'SingleAssignmentNode':
         if type(node.rhs).__name__ == 'ImportNode':
-            return [N('Import', ln)]
+            mn = str(node.rhs.module_name.value)
+            tgt = expr(node.lhs)
+            return [N('Import', ln, names=[(mn, None, tgt.id if tgt.k == 'Name' else mn.split('.')[0])])]
         return [N('Assign', ln, targets=[expr(node.lhs)], value=expr(node.rhs))]
     if cn == 'CascadedAssignmentNode':
         return [N('Assign', ln, targets=[expr(x) for x in node.lhs_list], value=expr(node.rhs))]
@@ -410,8 +412,15 @@ def stmts(node):
     if cn == 'WithStatNode':
         return [N('With', ln, items=[(expr(node.manager), expr(node.target) if node.target is not None else None)],
                   body=stmts(node.body))]
-    if cn in ('CImportStatNode', 'FromCImportStatNode', 'FromImportStatNode'):
-        return [N('Import', ln)]
+    if cn == 'FromImportStatNode':
+        mn = str(node.module.module_name.value)
+        names = []
+        for (nm, tgt) in node.items:
+            t = expr(tgt)
+            names.append((mn, str(nm), t.id if t.k == 'Name' else str(nm)))
+        return [N('Import', ln, names=names)]
+    if cn in ('CImportStatNode', 'FromCImportStatNode'):
+        return [N('Import', ln, names=[])]
     if cn in ('DefNode', 'CFuncDefNode'):
         return [N('FuncDef', ln, func=None, raw=node)]
     if cn in ('CEnumDefNode', 'CTypeDefNode', 'CStructOrUnionDefNode', 'CDefExternNode', 'DecoratorNode'):
